@@ -144,6 +144,17 @@ def run(ctx):
                     break
                 if len(ok_) >= 2 and sorted(Ts[k] for k in ok_)[-1] == sorted(Ts[k] for k in ok_)[-2]:
                     cov.hit("oracle:tie-among-qualifying")
+        # ---- oracle: a tracked vigilance lives "only for the rest of that sample's search": the first
+        #      category visited for every sample is judged against the configured value
+        if cls != "FusionART":
+            conf = spec["rho"]
+            for si, st in enumerate(rec.steps):
+                if st.Mseq and st.Mseq[0][2] is not None and st.Mseq[0][2] != conf:
+                    ctx.issue("violation", f"{cls}:vigilance-leaks-across-samples",
+                              f"step {si}: the first candidate was tested against rho={st.Mseq[0][2]}, configured {conf} "
+                              f"(mode {mode}, eps {eps}, reset function {has_reset})",
+                              {"spec": spec, "X": X, "step": si, "mode": mode, "eps": eps, "veto": vt if has_reset else None})
+                    break
         # ---- model tie: one `search` line per step that had categories
         for si, st in enumerate(rec.steps):
             if st.ncat == 0:
@@ -214,3 +225,4 @@ def run(ctx):
             cov.hit("exact-tie")
     # ---- tie (ii): end-to-end over Q
     e2e.base_histories(ctx, "C01", ctx.scale(120, 3000), nmax, fields=("labels", "W"))
+    e2e.sphere_histories(ctx, "C01", ctx.scale(80, 2000), ctx.scale(16, 50))
